@@ -7,6 +7,7 @@
 (***************************************************************************)
 EXTENDS LocalGridSys
 CONSTANTS MaxLen, PSeq, WSeq, CSeq, RSeq, SSeq   \* the alternatives as sequences (for positions)
+RejectSeq == <<"neg-radius", "nan-radius", "bad-center", "bad-points", "bad-weights">>
 VARIABLE hist
 gvars == <<vars, hist>>
 
@@ -18,6 +19,7 @@ GNext ==
        \/ \E pi_ \in 1..Len(PSeq) : SetPoints(PSeq[pi_]) /\ hist' = Append(hist, <<"SP", pi_, 0>>)
        \/ \E wi_ \in 1..Len(WSeq) : SetWeights(WSeq[wi_]) /\ hist' = Append(hist, <<"SW", wi_, 0>>)
        \/ \E si_ \in 1..Len(SSeq) : GetItem(SSeq[si_]) /\ hist' = Append(hist, <<"GI", si_, 0>>)
+       \/ \E ki_ \in 1..Len(RejectSeq) : Reject(RejectSeq[ki_]) /\ hist' = Append(hist, <<"RJ", ki_, 0>>)
 GSpec == GInit /\ [][GNext]_gvars
 \* emit each complete behaviour once (a state with Len(hist) = MaxLen is reached exactly once
 \* because hist is part of the state)
